@@ -22,6 +22,9 @@ func (e *Engine) dataObligations(prop string) (obls []*Obligation, err error) {
 		}
 	}()
 	for _, cf := range e.files {
+		if prop == "ALL" && !pkgSelected(cf.Pkg) {
+			continue
+		}
 		short := cf.Pkg[strings.LastIndex(cf.Pkg, "/")+1:]
 		for _, di := range cf.Invs {
 			if !hasProp(di.Props, prop) {
